@@ -846,6 +846,10 @@ class CExec:
         return self.read_lval(st, self.lval(st, n), n)
 
     def enum_value(self, rd):
+        vals = self.opt.get("enum_values") or {}
+        if rd.get("name") in vals:
+            self.assumptions.add("enum constant %s == %d (value taken from the CPython 3.12 headers)" % (rd.get("name"), vals[rd["name"]]))
+            return vals[rd["name"]]
         raise OutOfSubset("enum constant %s" % rd.get("name"))
 
     def ev_UnaryExprOrTypeTraitExpr(self, st, n):
@@ -1674,10 +1678,20 @@ class CExec:
                 outs.append(o)
         return outs
 
+    def roles(self):
+        """contract option `name_roles`: fn(function ast) -> {canonical name used by the contract: the variable's actual name},
+        found STRUCTURALLY (e.g. 'the variable that indexes the first parameter'), so that renamed locals do not matter"""
+        r = getattr(self, "_roles", None)
+        if r is None:
+            f = self.opt.get("name_roles")
+            r = self._roles = dict(f(self.func)) if f else {}
+        return r
+
     def local(self, st, name):
         """value of the local variable / parameter `name` in state st (for invariants)"""
+        actual = self.roles().get(name, name)
         for rid, nm in st.names.items():
-            if nm == name and rid in st.vars:
+            if nm in (name, actual) and rid in st.vars:
                 return st.vars[rid]
         raise StaleContract("no variable named %s" % name)
 
@@ -1748,6 +1762,9 @@ class CExec:
                 for c in x.get("inner", []) or []:
                     walk(c)
         walk(self.func)
+        for canon, actual in self.roles().items():
+            if actual in out:
+                out[canon] = out[actual]
         return out
 
     def run_fragment(self, st, stmt, values):
